@@ -124,6 +124,33 @@ pub fn grid(empty: bool) -> Vec<G> {
             }
         }
     }
+    // item sources joined by then and consumed as ONE IterParser: every pair of {repeated, separated_by,
+    // or_not, into_iter} shapes (and each alone), collect and count (only in the non-empty grid)
+    if !empty {
+        let j = |s: &str| G::Just(s.into());
+        let rep = |item: G, sep: Option<G>, lo: u8, hi: Option<u8>, leading: bool, trailing: bool| G::Rep(Rep { item: b(item), sep: sep.map(b), leading, trailing, lo, hi, sink: Sink::Vec, cfg: false, ctxb: 0 });
+        let sources: Vec<G> = vec![
+            rep(j("a"), None, 0, None, false, false),
+            rep(j("a"), None, 1, Some(2), false, false),
+            rep(j("ab"), None, 0, None, false, false),
+            rep(j("a"), Some(j(",")), 0, None, false, true),
+            rep(j("b"), Some(j(",")), 1, None, true, false),
+            G::OrNot(b(j("a"))),
+            G::OrNot(b(j("ab"))),
+            G::OrNot(b(G::Then(b(j("a")), b(j(","))))),
+            G::IntoIter(b(G::OrNot(b(j("b")))), 0),
+            G::IntoIter(b(rep(j("b"), None, 0, Some(2), false, false)), 0),
+            G::IntoIter(b(G::Then(b(j("a")), b(j("b")))), 0),
+        ];
+        for x in &sources {
+            for k in 0..2u8 {
+                out.push(G::Then(b(G::IterThen(vec![x.clone()], k)), b(any_rest())));
+                for y in &sources {
+                    out.push(G::Then(b(G::IterThen(vec![x.clone(), y.clone()], k)), b(any_rest())));
+                }
+            }
+        }
+    }
     out.retain(wf);
     out
 }
